@@ -38,7 +38,8 @@ def describe(case, obs):
 OPS = {
     "simple": ["diff_x", "interp_xy", "min_x", "max_y", "cumsum_x", "cumsum_xy", "derivative_x", "integrate_xy",
                "average_x", "cumint_x", "get_metric", "interp_like", "pad", "ufunc", "interp_mw", "ctor",
-               "bad_boundary", "bad_axis", "diff_outer"],
+               "bad_boundary", "bad_axis", "diff_outer", "min_outer", "max_outer", "interp_outer", "cumsum_outer",
+               "min_inner", "interp_inner"],
     "faces": ["vec_interp_x", "vec_diff_xy", "vec_pad", "scalar_diff_x", "scalar_interp_xy", "ctor_faces",
               "bad_boundary"],
     "vertical": ["transform_linear", "transform_cons", "transform_anon", "transform_arr", "diff_z"],
@@ -102,12 +103,13 @@ def world(case):
     if kind == "simple":
         ds = xr.Dataset(coords={"xc": ("xc", np.arange(4.) + .5, {"units": "m"}), "xl": ("xl", np.arange(4.)),
                                 "xo": ("xo", np.arange(5.)), "yc": ("yc", np.arange(3.) + .5),
-                                "yl": ("yl", np.arange(3.)), "t": ("t", [0., 1.])}, attrs={"title": "w"})
+                                "yl": ("yl", np.arange(3.)), "yi": ("yi", np.arange(2.) + 1), "t": ("t", [0., 1.])},
+                        attrs={"title": "w"})
         ds["dx"] = ("xc", np.array([1., 2., 1., 2.]))
         ds["dxl"] = ("xl", np.array([2., 1., 2., 1.]))
         ds["dy"] = ("yc", np.array([1., 3., 1.]))
         ds["area"] = (("yc", "xc"), np.outer([1., 3., 1.], [1., 2., 1., 2.]))
-        W["coords"] = {"X": {"center": "xc", "left": "xl", "outer": "xo"}, "Y": {"center": "yc", "left": "yl"}}
+        W["coords"] = {"X": {"center": "xc", "left": "xl", "outer": "xo"}, "Y": {"center": "yc", "left": "yl", "inner": "yi"}}
         W["ctor_boundary"] = {"X": "fill"} if not case["periodic"] else {"X": "periodic", "Y": "extend"}
         W["ctor_fill"] = {"X": 2.0}
         W["metrics"] = {("X",): ["dx", "dxl"], ("Y",): ["dy"], ("X", "Y"): ["area"]}
@@ -117,7 +119,8 @@ def world(case):
         da = xr.DataArray(np.arange(24.).reshape(2, 3, 4) ** 1.5, dims=["t", "yc", "xc"], name="temp",
                           attrs={"long_name": "T"}).assign_coords(xc=ds.xc, yc=ds.yc, t=ds.t)
         W["da"] = da
-        W["dao"] = xr.DataArray(np.arange(15.).reshape(3, 5), dims=["yc", "xo"], name="flux")
+        W["dao"] = xr.DataArray(np.arange(15.).reshape(3, 5) ** 1.1, dims=["yc", "xo"], name="flux")
+        W["dai"] = xr.DataArray((np.arange(12.).reshape(3, 4) * 7) % 5, dims=["yc", "xc"], name="w")
         W["boundary"] = {"X": "extend", "Y": "fill"}
         W["fill"] = {"X": 1.5, "Y": -1.0}
         W["to"] = {"X": "left", "Y": "left"}
@@ -206,6 +209,11 @@ def call(op, W):
         return g.interp(W["da"], ["X", "Q"], boundary=b)
     if op == "diff_outer":
         return g.diff(W["dao"], "X", boundary=b, fill_value=f)
+    # shifts that need no padding: the function is handed the caller's own data
+    if op in ("min_outer", "max_outer", "interp_outer", "cumsum_outer"):
+        return getattr(g, op.split("_")[0])(W["dao"], "X", to="center")
+    if op in ("min_inner", "interp_inner"):
+        return getattr(g, op.split("_")[0])(W["dai"], "Y", to="inner")
     if op == "vec_interp_x":
         return g.interp(W["vec"], "X", other_component=W["oc"], boundary=b, fill_value=f)
     if op == "vec_diff_xy":
